@@ -76,6 +76,7 @@ fn main() {
     let code = match args[0].as_str() {
         "C03" => dispatch(props::c03::C03, &args),
         "C04" => dispatch(props::c04::C04, &args),
+        "C05" => dispatch(props::c05::C05, &args),
         "C10" => dispatch(props::c10::C10, &args),
         "C12" => dispatch(props::c12::C12, &args),
         "C13" => dispatch(props::c13::C13, &args),
